@@ -44,23 +44,24 @@ TRUSTED = ['numpy np.asarray / np.unique(return_inverse) used by _stack_key_colu
 ASSUMPTIONS = ['fields are well-formed (index dataset = prefix sums of entry lengths) and all columns have the same length',
                'keys and targets are totally ordered (no NaN)', 'a sorted hint is truthful',
                'strings contain no NUL characters (numpy S/U arrays drop trailing NULs)']
-LEVEL_TEXT = ('12 theorems in coq/Props/C07.v (all closed under the global context) prove for all inputs (unbounded rows, key '
-              'columns, groups, entry lengths): the row-level composition (stable lexicographic sort + spans of the sorted key '
-              'rows + ANY per-span reduction = that reduction applied to the members of each distinct key tuple in original '
-              'row order, keys ascending; span lengths = group sizes; counts sum to the row count; a sorted input is left '
-              'alone so the hint changes nothing); that the model of DataFrame.groupby never fails on a well-formed frame and '
-              'returns exactly those spans / that permutation; and at dataframe level that drop_duplicates / distinct, the key '
-              'columns of every call (all field classes) and count equal the specification, and that min/max/first/last of a '
-              'plain (numeric, categorical, timestamp, fixed-string) target column is the group-wise aggregate. The model is '
-              'tied to the repository by the differential run described in `rule`, where every case is also judged against '
-              'the extracted specification.')
-LEVEL_NOTE = ('Partial: the frame-level statement for indexed-string TARGET columns and the name bookkeeping over several '
-              'targets / calls are not composed in Coq (ingredients: C08 string_argmin/argmax_correct, C09 '
-              'c09_field_index_correct, sorted_spans_reduce_is_groupwise); Session.aggregate_* / Session.distinct are modelled '
-              'and checked by correspondence against the spec, their Coq statement follows from C08 '
-              '(session_apply_spans_src_ok + apply_spans_*_correct) but is not restated here. The coercion performed by '
-              'numpy when key columns are stacked into one 2-d array happens before any kernel runs and is outside the '
-              'model (after fix F-C07b it is rank-preserving); it is covered by the correspondence only.')
+LEVEL_TEXT = ('20 theorems in coq/Props/C07.v (all closed under the global context) prove for all inputs (unbounded rows, key '
+              'columns, groups, entry lengths, targets, calls): the row-level composition (stable lexicographic sort + spans of '
+              'the sorted key rows + ANY per-span reduction = that reduction applied to the members of each distinct key tuple '
+              'in original row order, keys ascending; span lengths = group sizes; counts sum to the row count; a sorted input '
+              'is left alone so the hint changes nothing); that the model of DataFrame.groupby never fails on a well-formed '
+              'frame and returns exactly those spans / that permutation; and at dataframe level the FULL statement '
+              'groupby_steps_correct: spec_groupby_steps = Some r -> df_groupby_steps = Ok r, i.e. any sequence of count / '
+              'distinct / min / max / first / last calls (with or without write_keys, any number of targets of any field '
+              'class incl. indexed strings) into one destination yields exactly the specified columns (groupby_agg_correct, '
+              'groupby_agg_target_correct, groupby_count_correct, drop_duplicates_correct are its per-call parts); '
+              'Session.aggregate_count/min/max/first/last (aggregate_correct, aggregate_count_correct, '
+              'aggregate_agrees_with_groupby) and Session.distinct (session_distinct_correct) equal their references of '
+              'Spec/GroupSpec.v. The model is tied to the repository by the differential run described in `rule`, where '
+              'every case is also judged against the extracted specification.')
+LEVEL_NOTE = ('The coercion performed by numpy when key columns are stacked into one 2-d array happens before any kernel '
+              'runs and is outside the model (after fix F-C07b it is rank-preserving); it is covered by the correspondence '
+              'only. The theorems assume well-formed storage (frame_ok / column_okb), a truthful hint and fresh destination '
+              'names (the specification is None otherwise and only model == implementation is decided).')
 
 _np = None
 _Session = None
